@@ -297,6 +297,15 @@ class C01Driver(wl.Driver):
                         expected=sorted(map(str, want.elements())),
                         observed=sorted(map(str, got.elements())))
                 return
+            # the answer is the caller's own list: a client that empties or
+            # reorders it must not change what the world answers next time
+            if isinstance(got_list, list) and got_list:
+                if at % 2:
+                    del got_list[:]
+                else:
+                    got_list.reverse()
+                    got_list.pop()
+                res.stats['returned_lists_mutated_by_client'] += 1
         ids = list(self.mentioned) + [('ghost', 0), ('ghost', 1)]
         for e in ids:
             row = m.rows.get(e, {})
